@@ -605,3 +605,31 @@ Proof. destruct a; reflexivity. Qed.
 
 Lemma eager_program_reopt o org p prog : eager_program (reopt o org p) prog = eager_program p prog.
 Proof. unfold eager_program. apply map_ext. intros a. apply eager_access_reopt. Qed.
+
+(* ------------------------------------------------------------------ the uniform runner (what the correspondence executes) *)
+Lemma run_program_eager fuel fam p prog :
+  run_program fuel fam (PEager p) prog = (PEager p, map Some (eager_program p prog)).
+Proof.
+  induction prog as [|a prog IH]; cbn; [reflexivity|]. rewrite IH. reflexivity.
+Qed.
+
+Lemma run_program_lazy fuel fam : forall prog lp lp' rs,
+  lazy_program fuel fam lp prog = Some (lp', rs) ->
+  run_program fuel fam (PLazy lp) prog = (PLazy lp', map Some rs).
+Proof.
+  induction prog as [|a prog IH]; intros lp lp' rs H; cbn in *.
+  - inversion H. reflexivity.
+  - destruct (lazy_access fuel fam lp a) as [[lp1 r]|]; [|discriminate].
+    destruct (lazy_program fuel fam lp1 prog) as [[lp2 rs2]|] eqn:E; [|discriminate].
+    inversion H; subst. rewrite (IH _ _ _ E). reflexivity.
+Qed.
+
+(* no accessor of an eager packet panics *)
+Lemma eager_access_no_panic p a : eager_access p a <> RPanic.
+Proof. destruct a; cbn; discriminate. Qed.
+
+Lemma eager_program_no_panic p prog : ~ In RPanic (eager_program p prog).
+Proof.
+  unfold eager_program. intros H. apply in_map_iff in H. destruct H as [a [H _]].
+  exact (eager_access_no_panic p a H).
+Qed.
